@@ -911,7 +911,8 @@ def jax_objective_point(ctx, rid, repo, table, mk, shim):
                 jp = cap.get("jit_pieces") or {}
                 objective = PyFunc(lambda a, k: (seen_obj.append(a[0]) or [Poly.atom("NLL")]), "objective")
                 from ..listnp import T as _T
-                w.call_func(fo, [_T([Poly.atom(f"q{j}") for j in free_at]), Obj("data"), jp.get("fixed_values"), tuple(jp.get("fixed_idx", ())), tuple(jp.get("variable_idx", ())), jp.get("do_stitch"), objective, pdf_])
+                # by parameter NAME: the order of the eight parameters is the definition's business (and its call sites')
+                w.call_func(fo, [], {"pars": _T([Poly.atom(f"q{j}") for j in free_at]), "data": Obj("data"), "fixed_values": jp.get("fixed_values"), "fixed_idx": tuple(jp.get("fixed_idx", ())), "variable_idx": tuple(jp.get("variable_idx", ())), "do_stitch": jp.get("do_stitch"), "objective": objective, "pdf": pdf_})
                 got = [str(to_poly(x)) for x in seen_obj[0]]
                 want = [f"v{j}" if j in fixed_list else f"q{j}" for j in range(npar)]
                 if got == want:
